@@ -7,7 +7,10 @@ set -u
 patch="$(readlink -f "$1")"; shift
 SC=${TRYROOT:-/tmp/tryseed}
 mkdir -p $SC/repo $SC/verif
-rsync -a --delete --exclude target --exclude .git /repo/ $SC/repo/
+# files that rsync brings back to their original content get their ORIGINAL (older) mtime; cargo
+# compares mtimes, so a crate whose only change is such a revert would not be rebuilt and would keep
+# the previous seed's patch: every transferred file is touched
+rsync -ai --delete --exclude target --exclude .git /repo/ $SC/repo/ | awk '/^>f/ {print $2}' | while read -r f; do touch "$SC/repo/$f"; done
 ( cd $SC/repo && git apply "$patch" ) || { echo "patch does not apply"; exit 2; }
 rsync -a --delete --exclude .build --exclude .scratch --exclude replays --exclude evidence --exclude .git --exclude seeded /verif/ $SC/verif/
 sed -i "s#/repo/crates#$SC/repo/crates#" $SC/verif/harness/Cargo.toml
